@@ -82,6 +82,16 @@ def run(V, tier, want, cfg="Layouts_cli.cfg"):
                 path = CLI.disk_path(root, slot)
                 lens = srv.doc_request("textDocument/codeLens", path) or []
                 out["lenses"][slot] = [(l["range"]["start"]["line"] + 1, l["command"]["title"]) for l in lens]
+                if "c04" in want and slot != "pl":
+                    # incoming calls asked from every definition line that carries a lens (also the later of two same-named ones)
+                    for l in lens:
+                        dl0 = l["range"]["start"]["line"]
+                        col = next((ns for (dl, ns, ne) in r.def_name_pos.values() if dl - 1 == dl0), 4)
+                        pc = srv.pos_request("textDocument/prepareCallHierarchy", path, dl0, col)
+                        inc = srv.request("callHierarchy/incomingCalls", {"item": pc[0]}) if pc else None
+                        out.setdefault("incoming_by_def", []).append(
+                            {"slot": slot, "line": dl0 + 1, "lens": l["command"]["title"], "prepared": loc_key(pc[0] if pc else None, ws),
+                             "incoming": None if inc is None else len(inc)})
                 # C02: the NAME of an overriding fixture that requests its own name: definition and references asked there
                 if "c02" in want and slot != "pl":      # (the plugin source lives outside the materialised workspace root)
                     for idx, (dl, ns, ne) in r.def_name_pos.items():
@@ -181,6 +191,26 @@ def run(V, tier, want, cfg="Layouts_cli.cfg"):
                         V.violation(dict(e2, lens=title, references=refs), "code lens usage count is smaller than the reference list")
                 if "incoming" in rec and rec["incoming"] > (int(title.split()[0]) if title else 10 ** 6):
                     V.violation(dict(e2, lens=title, incoming=rec["incoming"]), "incoming calls exceed the code lens usage count")
+        if "c04" in want:
+            # the three COUNTS of C04 per definition: code lens, incoming calls, and the usages that navigate to it
+            nav = {}
+            for rec in r["positions"]:
+                if rec["definition"] is not None:
+                    nav[rec["definition"]] = nav.get(rec["definition"], 0) + 1
+            for x in r.get("incoming_by_def", []):
+                V.count()
+                me = (CLI.rel_of_slot(x["slot"]), x["line"])
+                n_nav = nav.get(me, 0)
+                e6 = dict(ex, definition=list(me), code_lens=x["lens"], incoming_calls=x["incoming"], usages_navigating_to_it=n_nav,
+                          call_hierarchy_item_points_at=x["prepared"])
+                try:
+                    n_lens = int(x["lens"].split()[0])
+                except ValueError:
+                    n_lens = None
+                if n_lens is not None and n_lens != n_nav:
+                    V.violation(e6, "the code lens usage count differs from the number of usages that navigate to the definition")
+                if x["incoming"] is not None and x["incoming"] != n_nav:
+                    V.violation(e6, "callHierarchy/incomingCalls differs from the number of usages that navigate to the definition")
         if "c02" in want:
             # usages (relative path, line, column) by the definition the real server navigates to from them
             by_def = {}
